@@ -64,41 +64,16 @@ def check_entry(run, config, fname, dr, allow_panic_key=None):
     return res, ex
 
 
-def profile_of(config):
-    return ('debug' if config.startswith('devchk') else 'release'), (('std', 'no_simd') if 'nosimd' in config else ('std',))
-
-
 def confirm_panic(run, config, fname, args, model, r, dr):
-    prof, feats = profile_of(config)
-    rp = entry.replay(fname, args, model, prof, feats)
-    ctr = model.get('ctr', 0)
-    key = 'refill-counter-overflow-panic' if ('overflow' in r.detail or 'panic_const' in r.detail) and fname != 'h_c14_refill4' else \
-        '%s:%s' % (fname, r.status)
-    what = '%s (%s build) panics: %s; ctr=%#x drounds=%d' % (fname, prof, r.detail[:120], ctr, dr)
-    if rp['status'] == 'panic':
-        path = run.write_replay(key, {'entry': fname, 'config': config, 'profile': prof, 'args': entry.arg_hex(args, model), 'native': rp, 'model': model})
-        run.violation(key, what, path)
-    else:
-        run.inconclusive.append('panic path not reproduced natively: ' + what)
+    key = 'refill-counter-overflow-panic' if ('overflow' in r.detail) and fname != 'h_c14_refill4' else '%s:%s' % (fname, r.status)
+    what = '%s (%s) panics: %s; ctr=%#x drounds=%d' % (fname, config, r.detail[:120], model.get('ctr', 0), dr)
+    confirm(run, config, fname, args, model, key, what, kind='fault')
 
 
 def confirm_mismatch(run, config, fname, args, ob, r, exp_out, exp_p, dr):
-    prof, feats = profile_of(config)
-    model = ob.model
-    rp = entry.replay(fname, args, model, prof, feats)
-    ev = T.Evaluator(model)
-    want = [ev.val(exp_out).to_bytes(T.width(exp_out) // 8, 'little').hex(), ev.val(exp_p).to_bytes(16, 'little').hex()]
-    key = '%s:mismatch:%s' % (fname, arm_name(r.pc))
+    key = '%s:mismatch:%s:%s' % (fname, 'portable' if 'nosimd' in config else 'x86', arm_name(r.pc))
     what = '%s differs from the reference block function (config %s, dr=%d, arm %s)' % (fname, config, dr, arm_name(r.pc))
-    if rp['status'] == 'ok' and rp['outputs'] != want:
-        path = run.write_replay(key, {'entry': fname, 'config': config, 'args': entry.arg_hex(args, model), 'native': rp, 'expected': want, 'model': model})
-        run.violation(key, what, path)
-    elif rp['status'] != 'ok':
-        path = run.write_replay(key, {'entry': fname, 'config': config, 'args': entry.arg_hex(args, model), 'native': rp, 'expected': want})
-        run.violation(key + ':crash', what + ' and the native run fails: ' + rp['status'], path)
-    else:
-        # the host's native run takes one arm only; a mismatch in another arm cannot be reproduced without the backend hook
-        run.inconclusive.append('counterexample not reproduced natively (needs backend override?): ' + what)
+    confirm(run, config, fname, args, ob.model, key, what, exp={'out': exp_out, 'pout': exp_p})
 
 
 def canaries(run):
